@@ -14,7 +14,7 @@ ENGINES = [
 
 PROPS = {
     "C06": {
-        "claimed": False,
+        "claimed": True,
         "engine": "kv",
         "technique": "Lean 4 theorems (refinement of the overlay stack to an ordered map, induction over the merge iterator and the stack) + differential correspondence of the executable model with the real StorageTransaction",
         "level_text": "The overlay algorithm (get, the MergeOverlay iterator, set/remove, commit replay) is transcribed into Lean and proved to refine a plain ordered map for every base, every op history, all bounds, both orders and any stacking depth; the transcription is tied to /repo by running both on the same generated op sequences (and a model-free ordered-map oracle on the implementation's answers).",
